@@ -75,9 +75,16 @@ func buildWorld() {
 		{Type: "ssh-ed25519-x", Args: []string{"A", "B"}, Body: make([]byte, 47)}}}}
 	world["U3"] = &Party{Name: "U3", Kind: 'U', Recipient: &Unknown{Stanzas: []*age.Stanza{
 		{Type: "!", Args: []string{"~", "}"}, Body: make([]byte, 49)}}}}
+	// U4: a stanza whose argument line is longer than any default I/O buffer
+	long := make([]byte, 5000)
+	for i := range long {
+		long[i] = byte('a' + i%26)
+	}
+	world["U4"] = &Party{Name: "U4", Kind: 'U', Recipient: &Unknown{Stanzas: []*age.Stanza{
+		{Type: "long-args", Args: []string{string(long), "tail"}, Body: make([]byte, 100)}}}}
 }
 
-// P returns the named party: X1..X4, E1..E3, R1..R4, S1, S2, U0..U3.
+// P returns the named party: X1..X4, E1..E3, R1..R4, S1, S2, U0..U4.
 func P(name string) *Party {
 	worldOnce.Do(buildWorld)
 	p := world[name]
